@@ -340,3 +340,28 @@ def c06(c):
     _decoders(c, 3000000 if thorough else 40000)
     c.assumptions += ["signature body canonicity is decided at verification time (C07/C02); from_bytes checks the framing only, as the property's "
                       "observable 'x.to_bytes() = b' requires"]
+
+
+def c09(c):
+    thorough = c.tier == "thorough"
+    c.cov["rule"] = ("Trace_Sampler: BaseSampler on RCDT[i]-1, RCDT[i], RCDT[i]+1 for all 18 thresholds, 0, 2^72-1 and random values (a step "
+                     "function is determined by these); ApproxExp exactly (63-bit fixed point on BigNat) on corners and random (x, ccs); BerExp "
+                     "exactly for shifts s in {0..65, 200} with byte strings tying on the first k = 0..7 bytes of the threshold; sampler_z as a "
+                     "function of (mu, sigma, sigma_min, byte stream) in exact IEEE-754 arithmetic: value of the first accepting iteration and "
+                     "number of bytes consumed, for a grid of centres/widths under random, constant, periodic, z0-forcing and all-tie streams; "
+                     "Stats: chi-square of 2e5 (5e6) samples per (mu, sigma) pair against the discrete Gaussian. "
+                     "distinct_nontrivial = distinct branches (z0 values, shift classes, iteration counts)")
+    mc = McOutcome()
+    model_check(mc, [dict(module="MC_Sampler", cfg="MC_Sampler", workers=8),
+                     dict(module="MC_Sampler", cfg="MC_Sampler_D4", workers=4, expect="violation")])
+    c.add_mc(mc)
+    drive("c09", ["--tier", c.tier, "--seed", c.seed, "--out", c.work, "--shards", 14])
+    to = validate_traces("Trace_Sampler", traces_in(c.work, "sampler"), parallel=PAR, timeout=7200)
+    c.add_traces(to, keyfn=generic_key)
+    drive("c09-hist", ["--tier", c.tier, "--seed", c.seed, "--out", c.work, "--samples", 5120000 if thorough else 204800], timeout=7200)
+    to = validate_traces("Trace_Stats", traces_in(c.work, "hist"), parallel=1)
+    c.add_traces(to, keyfn=generic_key, label="stats")
+    c.assumptions += ["floating-point glue is specified in exact binary64 arithmetic in the reference operation order (as the known-answer "
+                      "vectors require); a refactoring with another valid evaluation order would differ only inside a 2^-40 band",
+                      "the closeness of the sampler's exact output law to the ideal Gaussian (Renyi argument) is not derived; the histogram test "
+                      "has the usual power limits", "a stream that never accepts makes the specified algorithm loop too: totality = no panic on any prefix"]
